@@ -13,7 +13,7 @@ use serde::{Deserialize, Serialize};
 use std::f64::consts::PI;
 use std::time::Instant;
 
-pub const RULE: &str = "cases = (a) closed forms for the mean of jacobian alone: massive one-vertex flowers (product of tadpoles, D*L<=8), massless L-loop bananas (L=1..3), massive bananas in D=1 with unit weights (L=1..6), massive bubble in D=3; (b) the universal identity E[jacobian * h(k) * prod_e (q_e^2+m_e^2)^nu_e] = 1 for a normalised test function h (Gaussian, or Student-type (s^2+|k-c|^2)^(-sum nu) whose product with the propagators tends to a constant at large k) with generated centre/width on arbitrary accepted graphs with D*L<=8 and all omega>=0.3, width chosen by an independent pilot run; every case under a generated routing (random spanning tree, unimodular column operations, orientation flips, offsets); (c) deterministic scaling relation jacobian(2*kinematics) = 2^(-2 dod) jacobian(kinematics) pointwise. decision: N iid uniform points from a rand::StdRng seeded by the case; z=(mean-target)/se; |z|>4.5 triggers a second stage with 8N fresh points; violation only if |z2|>5 with the same sign and comparable spread, otherwise inconclusive (never a violation). non-trivial = L>=2, or a massive edge, or unequal weights, or D!=3; distinct = distinct case encodings";
+pub const RULE: &str = "cases = (a) closed forms for the mean of jacobian alone: massive one-vertex flowers (product of tadpoles, D*L<=8), massless L-loop bananas (L=1..3), massive bananas in D=1 with unit weights (L=1..6), massive bubble in D=3; (b) the universal identity E[jacobian * h(k) * prod_e (q_e^2+m_e^2)^nu_e] = 1 for a normalised test function h (Gaussian, or Student-type (s^2+|k-c|^2)^(-sum nu) whose product with the propagators tends to a constant at large k) with generated centre/width on arbitrary accepted graphs with D*L<=8 and all omega>=0.3, width chosen by an independent pilot run; every case under a generated routing (random spanning tree, unimodular column operations, orientation flips, offsets); (c) deterministic scaling relation jacobian(2*kinematics) = 2^(-2 dod) jacobian(kinematics) pointwise. decision: N iid uniform points from a rand::StdRng seeded by the case; z=(mean-target)/se; |z|>4.5 triggers a second stage with 8N fresh points; violation only if |z2|>5 with the same sign and comparable spread, otherwise inconclusive (never a violation); draws on which the sampler returns an error (Gamma coordinate below the 1e-13 quantile, allowed by C12) are excluded from the mean for g = 1, whose weight does not depend on that coordinate, and count as zero for the universal identity. non-trivial = L>=2, or a massive edge, or unequal weights, or D!=3; distinct = distinct case encodings";
 
 #[derive(Clone, Debug, Serialize, Deserialize, PartialEq)]
 pub enum Kind {
@@ -244,9 +244,15 @@ fn stage<const D: usize>(s: &SampleGenerator<D>, c: &Case, ln_target: f64, width
         s2 += w * w;
         maxw = maxw.max(w);
     }
-    let mean = s1 / n as f64;
-    let var = (s2 / n as f64 - mean * mean).max(0.0);
-    Ok(Moments { n, mean, sd: var.sqrt(), bad, maxw })
+    // Failed draws (GammaError below the 1e-13 quantile, allowed by C12) remove a slice of the gamma coordinate.
+    // For g = 1 the weight does not depend on that coordinate, so the mean over the successful draws is the
+    // unbiased estimate; for the universal identity the lost slice has lambda -> 0, k -> infinity, h(k) -> 0 and
+    // contributes nothing, so those draws count as zero.
+    let denom = if universal { n } else { n - bad };
+    let denom = denom.max(1) as f64;
+    let mean = s1 / denom;
+    let var = (s2 / denom - mean * mean).max(0.0);
+    Ok(Moments { n: denom as usize, mean, sd: var.sqrt(), bad, maxw })
 }
 
 fn check_d<const D: usize>(c: &Case, ctx: &mut Ctx) -> Result<(), Failure> {
